@@ -31,8 +31,8 @@ def hist_of(state):
     return streams, hist
 
 
-def scen(run, name, streams, hist, sync, rotate_at=0, truncate=False, recycle=0):
-    return dict(run=run, name=name, sync=sync, streams=streams, hist=hist, rotate_at=rotate_at, truncate=truncate, recycle=recycle)
+def scen(run, name, streams, hist, sync, rotate_at=0, truncate=False, recycle=0, maint=""):
+    return dict(run=run, name=name, sync=sync, streams=streams, hist=hist, rotate_at=rotate_at, truncate=truncate, recycle=recycle, maint=maint)
 
 
 def run(ctx):
@@ -136,6 +136,24 @@ def run(ctx):
             hist += [["append", j], ["act", j], ["deliver", j], ["commit", j]]
         hist += [["save", 0], ["append_begin", n], ["sleep", 250], ["kill", 0], ["restart", 0], ["sleep", 250], ["append_end", n], ["open", 0]]
         scs.append(scen(k, "slow-writer-kill-%d" % k, streams, hist, True))
+        k += 1
+    # appends at random instants while the idle file is re-opened by maintenance every millisecond (a line that lands between the
+    # size check on the old descriptor and the positioning of the new one must still be read); probabilistic: hundreds of re-opens
+    for i in range(3 if thorough else 1):
+        n = 1500 if thorough else 900
+        scs.append(scen(k, "append-storm-%d" % k, ["a"] * n, [["open", 0], ["append", 1], ["sleep", 50], ["storm", n - 2], ["sleep", 30]], True,
+                        truncate=True, maint="1ms"))
+        k += 1
+    # truncated in place and rewritten SHORTER than the saved offsets while file.d is down: the file must be started over
+    for i in range(4 if thorough else 2):
+        n1 = ctx.rng.randint(4, 6)
+        n2 = ctx.rng.randint(1, 2)
+        hist = []
+        for j in range(1, n1 + 1):
+            hist += [["append", j], ["act", j], ["deliver", j], ["commit", j]]
+        hist += [["save", 0], ["kill", 0], ["truncate_down", 0]] + [["append", n1 + j] for j in range(1, n2 + 1)]
+        hist += [["restart", 0], ["open", 0], ["sleep", 400], ["append", n1 + n2 + 1]]
+        scs.append(scen(k, "truncated-while-down-%d" % k, ["a"] * (n1 + n2 + 1), hist, True))
         k += 1
     # a new file that appears after the restart with the inode number of a file removed while down (offsets are loaded only for
     # files found at start: the new file must be read from its beginning)
